@@ -44,10 +44,12 @@ def _simple_ref(e) -> bool:
 
 
 def _contains_return(node) -> bool:
-    for n in ast.walk(node):
-        if isinstance(n, ast.Return):
-            return True
-    return False
+    """A `return` of the function `node` belongs to (not of a function nested in it)."""
+    if isinstance(node, FuncNode + (ast.Lambda, ast.ClassDef)):
+        return False
+    if isinstance(node, ast.Return):
+        return True
+    return any(_contains_return(ch) for ch in ast.iter_child_nodes(node))
 
 
 def _tailify(stmts: list) -> Optional[list]:
@@ -56,7 +58,7 @@ def _tailify(stmts: list) -> Optional[list]:
     for i, st in enumerate(stmts):
         if isinstance(st, ast.Return):
             return out + [st]
-        if isinstance(st, FuncNode + (ast.ClassDef,)):
+        if isinstance(st, ast.ClassDef):
             return None
         if not _contains_return(st):
             out.append(st)
@@ -236,6 +238,41 @@ def _inline_into_block(stmts: list, owner, name, helper, is_static) -> tuple[lis
             for h in st.handlers:
                 h.body, k = _inline_into_block(h.body, owner, name, helper, is_static)
                 n_inl += k
+        # a call buried in a simple statement (an argument of another call, ...) is hoisted into a temporary first, when nothing with an effect
+        # is evaluated before it in that statement
+        if isinstance(st, (ast.Assign, ast.Expr, ast.Return, ast.AugAssign, ast.AnnAssign)) and not any(
+            _is_call_of(top, owner, name) for top in [getattr(st, "value", None)]
+        ):
+            inner = [c for c in ast.walk(st) if _is_call_of(c, owner, name)]
+            if len(inner) == 1 and _hoistable(st, inner[0]):
+                rb = _body_wo_doc(helper)
+                tmp = rb[-1].value.id if rb and isinstance(rb[-1], ast.Return) and isinstance(rb[-1].value, ast.Name) else f"_{name.strip('_')}_result"
+                used = {n.id for n in ast.walk(st) if isinstance(n, ast.Name)}
+                if tmp not in used:
+                    call0 = inner[0]
+
+                    class Hoist(ast.NodeTransformer):
+                        def visit_Call(self, c):
+                            if c is call0:
+                                return ast.copy_location(ast.Name(id=tmp, ctx=ast.Load()), c)
+                            self.generic_visit(c)
+                            return c
+
+                    pre = ast.copy_location(ast.Assign(targets=[ast.Name(id=tmp, ctx=ast.Store())], value=call0), st)
+                    st2 = Hoist().visit(st)
+                    ast.fix_missing_locations(pre)
+                    nb, k = _inline_into_block([pre], owner, name, helper, is_static)
+                    if k:
+                        out.extend(nb)
+                        out.append(st2)
+                        n_inl += k
+                        continue
+                    # not inlinable after all: put the call back
+                    class Unhoist(ast.NodeTransformer):
+                        def visit_Name(self, x):
+                            return call0 if x.id == tmp and isinstance(x.ctx, ast.Load) else x
+
+                    st = Unhoist().visit(st2)
         call = None
         kind = None
         if isinstance(st, ast.Expr) and _is_call_of(st.value, owner, name):
@@ -259,6 +296,10 @@ def _inline_into_block(stmts: list, owner, name, helper, is_static) -> tuple[lis
             out.append(st)
             continue
         mp, prelude = b
+        if any(isinstance(n, FuncNode) for x in body0 for n in ast.walk(x)) and any(not (isinstance(v, ast.Name) and v.id == p) for p, v in mp.items()):
+            # closures in the helper: splice only when every parameter keeps its name (no substitution inside nested scopes)
+            out.append(st)
+            continue
         tail = [_Subst(mp).visit(x) for x in tail]
         ok = True
         if kind == "expr":
@@ -295,6 +336,30 @@ def _inline_into_block(stmts: list, owner, name, helper, is_static) -> tuple[lis
         out.extend(_set_loc(block, st))
         n_inl += 1
     return out, n_inl
+
+
+def _hoistable(st, call) -> bool:
+    """No call other than the ancestors of `call` starts before it in `st`, and `call` is not under a lambda / comprehension / boolean operator /
+    conditional expression (where it might not be evaluated, or be evaluated repeatedly)."""
+    path = []
+
+    def find(n, acc):
+        if n is call:
+            path.extend(acc)
+            return True
+        return any(find(ch, acc + [n]) for ch in ast.iter_child_nodes(n))
+
+    if not find(st, []):
+        return False
+    if any(isinstance(a, (ast.Lambda, ast.ListComp, ast.SetComp, ast.DictComp, ast.GeneratorExp, ast.BoolOp, ast.IfExp)) for a in path):
+        return False
+    pos = (call.lineno, call.col_offset)
+    for n in ast.walk(st):
+        if isinstance(n, ast.Call) and n is not call and n not in path and not any(y is n for y in ast.walk(call)):
+            if (n.lineno, n.col_offset) < pos:
+                return False
+    # targets of an assignment with effects (subscripts with calls) are evaluated after the value: fine
+    return True
 
 
 def _all_paths_return(stmts: list) -> bool:
@@ -392,7 +457,7 @@ def inline_new_helpers(tree: ast.Module, ref_tree: ast.Module) -> int:
             decs = [ast.unparse(d) for d in fn.decorator_list]
             if any(d not in ("staticmethod",) for d in decs):
                 continue
-            if any(isinstance(n, (ast.Yield, ast.YieldFrom, ast.Await, ast.Lambda, ast.Global, ast.Nonlocal)) or (isinstance(n, FuncNode) and n is not fn) for n in ast.walk(fn)):
+            if any(isinstance(n, (ast.Yield, ast.YieldFrom, ast.Await, ast.Lambda, ast.Global, ast.Nonlocal)) for n in ast.walk(fn)):
                 continue
             # recursion: leave alone
             if any(isinstance(n, ast.Call) and ((isinstance(n.func, ast.Attribute) and n.func.attr == leaf) or (isinstance(n.func, ast.Name) and n.func.id == leaf)) for n in ast.walk(fn)):
